@@ -488,5 +488,23 @@ def run(rc):
 
 
 def replay(data):
-    from ..replay import replay_grammar_case
-    return replay_grammar_case(data)
+    """Re-runs a recorded history of public-API calls in a pristine child and compares the affected call with the
+    same call run first."""
+    d = data['detail']
+    if 'history' not in d or 'position' not in d:
+        from ..replay import replay_grammar_case
+        return replay_grammar_case(data)
+    names = [str(c) for c in CALLS]
+    hist = tuple(names.index(h) for h in d['history'])
+    r = in_child(run_history, hist)
+    alone = in_child(run_history, (hist[d['position']],))
+    for h in d['history']:
+        print('  ', h)
+    got = r[1][d['position']] if r[0] == 'ok' else r
+    first = alone[1][0] if alone[0] == 'ok' else alone
+    print('in history :', str(got)[:400])
+    print('run first  :', str(first)[:400])
+    if got != first:
+        print('VIOLATION property=C10 replay=reproduced')
+        return 1
+    return 0
